@@ -3,7 +3,7 @@ import ast
 
 from ..cfg import CFG
 from ..report import AnalysisError, norm
-from ..srcmodel import own_nodes, own_statements
+from ..srcmodel import own_nodes, own_statements, program_order
 from ..terms import Resolver, alternatives, show, walk
 
 PROP = "C11"
@@ -217,7 +217,7 @@ def r2_routes(rep, ctx):
     cw = [c for c in own_nodes(cc.node) if isinstance(c, ast.Call) and isinstance(c.func, ast.Attribute) and c.func.attr == "CreateWithQuantity"]
     if not cw:
         raise AnalysisError("AbstractValueWithQuantityObject.CreateCopy: no CreateWithQuantity call found")
-    for c in sorted(cw, key=lambda c: c.lineno):
+    for c in sorted(cw, key=program_order(cc.node)):
         fwd = any(k.arg is None and isinstance(k.value, ast.Name) and k.value.id == kwname for k in c.keywords)
         rep.check(fwd, "C11.R2", "CreateCopy:forwards-kwargs:%s" % norm(ast.unparse(c))[:70], "the copy is created with the extra keyword arguments of the caller (FixedArray's dimension)",
                   "this route of CreateCopy drops **%s: a FixedArray copied on it takes its dimension from len(values) instead of the original's dimension" % kwname, node=c, fn=cc)
